@@ -243,7 +243,7 @@ func smallStreams(c *explore.Ctx) {
 	s := []byte(sb.String())
 	maxLen := 10
 	if c.Thorough() {
-		maxLen = 13
+		maxLen = 12
 	}
 	if len(s) > maxLen {
 		c.Outcome("long")
@@ -442,7 +442,7 @@ func Spec() *explore.Spec {
 	return &explore.Spec{
 		ID: "C11",
 		Families: []*explore.Family{
-			{Name: "small-streams", ShardDepth: 3, Body: smallStreams, Doc: "streams of 1-2 (quick) / 1-3 (thorough) values (10 value forms incl. unterminated / truncated ones) x 4 separators, up to 10 bytes (quick) / 13 bytes (thorough): every prefix delivered, in every chunking (all compositions), with the terminal error {EOF, custom, io.ErrUnexpectedEOF} delivered alone or with the last bytes, zero-length reads interleaved, x {plain, UseNumber, DisallowUnknownFields}"},
+			{Name: "small-streams", ShardDepth: 3, Body: smallStreams, Doc: "streams of 1-2 (quick) / 1-3 (thorough) values (10 value forms incl. unterminated / truncated ones) x 4 separators, up to 10 bytes (quick) / 12 bytes (thorough): every prefix delivered, in every chunking (all compositions), with the terminal error {EOF, custom, io.ErrUnexpectedEOF} delivered alone or with the last bytes, zero-length reads interleaved, x {plain, UseNumber, DisallowUnknownFields}"},
 			{Name: "straddle", ShardDepth: 2, Body: straddle, Doc: "11 token kinds placed so that every split point of the token falls on every buffer / refill boundary (4096, 8192, 32768, 36864, 65536, 131072), after white space / a long string / a long array, followed by nothing / a value / white space and a value; full reads, single-byte reads at the boundary, 4096-byte reads, errors and truncations at the boundary"},
 			{Name: "big-values", ShardDepth: 2, Body: bigValues, Doc: "sequences of 1-2 values of sizes around the 4 KiB read quantum and the 32 KiB buffer (strings, arrays, white space runs) x 6 chunkings x error positions"},
 			{Name: "parse-remainder", ShardDepth: 2, Body: parseRemainder, Doc: "Parse returns exactly the bytes after the first value and its trailing white space: 9 documents x 12 suffixes x 3 leading white space forms x 3 targets"},
